@@ -194,7 +194,7 @@ class Serializable(object):  # pylint: disable=too-few-public-methods
         if hasattr(obj, '_asdict'):
             dict_value = obj._asdict()
             if not isinstance(dict_value, dict):
-                return False, dict_value
+                return cls._markdown_result(dict_value, level)
 
             dict_value = Serializable._filter_out_non_human_friendly(obj, dict_value, human_friendly_only=True)
         else:
